@@ -19,7 +19,12 @@ def eval_case(case):
         wf.initialize()
         sn = sim.snap(b.project)
         out += O.c12_snapshot(S, sn, 0, "fresh")
+        late = case.get("late_edge")
         for step, (t, rems) in enumerate(case["pert_seq"]):
+            if late and late[0] == step:
+                # the model is edited between two updates: one more finish-to-start link
+                wf.task_list[late[2]].append_input_task(wf.task_list[late[1]])
+                S = O.Static(dict(case, edges=case["edges"] + [[late[1], late[2], 0]]))
             for task, r in zip(wf.task_list, rems):
                 task.remaining_work_amount = float(Fraction(r))
             wf.update_PERT_data(t)
@@ -58,6 +63,26 @@ def gen_cases(rng, n):
                 seq.append([t, [gen.qs(r) for r in rem]])
             c["pert_seq"] = seq
             c["ops"] = []
+            if nt >= 2 and len(seq) >= 2 and rng.random() < 0.2:
+                order, indeg = [], [0] * nt
+                for (a, b_, k) in c["edges"]:
+                    indeg[b_] += 1
+                todo = [i for i in range(nt) if indeg[i] == 0]
+                while todo:
+                    x = todo.pop(0)
+                    order.append(x)
+                    for (a, b_, k) in c["edges"]:
+                        if a == x:
+                            indeg[b_] -= 1
+                            if indeg[b_] == 0:
+                                todo.append(b_)
+                if len(order) == nt:
+                    pos = {tt: n_ for n_, tt in enumerate(order)}
+                    a, b_ = rng.sample(range(nt), 2)
+                    if pos[a] > pos[b_]:
+                        a, b_ = b_, a
+                    if not any(x == a and y == b_ for (x, y, k) in c["edges"]):
+                        c["late_edge"] = [rng.randrange(1, len(seq)), a, b_]
         cases.append(c)
     return cases
 
